@@ -20,7 +20,7 @@ CHECKS = {
                      "(sending to them raises, as in autobahn), and four real-process runs over TCP reproduce that window with SIGSTOP/SIGCONT.",
                 nontrivial_rule="a history counts if an add reached at least one subscribed connection; distinct by history hash.",
                 floors={"quick": {"c02_fanout": 200, "c02_fanout_subscribed": 100, "c02_fanout_next_to_closing_subscriber": 20,
-                                  "wire_closing_case": 4}}),
+                                  "wire_closing_case": 4, "wire_transport_case": 5}}),
     "C03": dict(module=H, level="exploration",
                 rule="Same engine, 3 apps sharing 4 nameplate names; every claimed frame judged by the one-mailbox-per-incarnation oracle "
                      "(function + injectivity over the whole run, across restarts).",
@@ -137,7 +137,7 @@ CHECKS = {
                      "fragments, empty, 10 kB); every frame and every step judged by the per-connection protocol oracle written from docs/server-protocol.md.",
                 nontrivial_rule="a history counts if it contains a command classified as definitely rejected; distinct by history hash.",
                 floors={"quick": {"rejected_cmd": 2000, "ack_first": 20000, "ping_pong": 500, "welcome": 1000, "error_has_orig": 2000,
-                                  "wire_closing_case": 4}}),
+                                  "wire_closing_case": 4, "wire_transport_case": 5}}),
     "C18": dict(module="mon.checks.c18", level="exploration",
                 rule="Differential across configurations: each random history is executed under the base configuration (listing allowed, no usage db, no "
                      "blur) and under sampled (thorough: all 15) other combinations of {listing} x {usage db} x {blur none/1/61/3600}; every frame except "
